@@ -57,7 +57,12 @@ package decorator
 //@ requires at_cursor: slash == r.cursor
 //@ ensures registered_at_slash: len(r.comments) == old(len(r.comments)) || (len(r.comments) == old(len(r.comments)) + 1 && !wasAllocated(r.comments[len(r.comments)-1]) && len(r.comments[len(r.comments)-1].List) == 1 && r.comments[len(r.comments)-1].List[0].Slash == slash)
 
+// breaksBefore(k): how many of decorations[0..k) are line breaks of their own ("\n" or a line comment) — a definition
+// by recursion, stated as an assumption.
+//@ uninterp func breaksBefore(k int) int
+
 //@ func (r *FileRestorer) applyDecorations
+//@ assumes break_count_def: breaksBefore(0) == 0 && (forall k int :: {breaksBefore(k + 1)} 0 <= k && k < len(decorations) ==> breaksBefore(k + 1) == breaksBefore(k) + (isBreak(decorations[k]) ? 1 : 0))
 //@ requires inv: r.inv()
 //@ modifies r.cursor, r.lines, r.cursorAtNewLine, r.comments, elems(int), elems(*ast.CommentGroup), elems(*ast.Comment), heap(ast.Field.Comment), heap(ast.ImportSpec.Comment), heap(ast.ValueSpec.Comment), heap(ast.TypeSpec.Comment), heap(ast.CommentGroup.List), heap(ast.Comment.Slash), heap(ast.Comment.Text)
 //@ ensures inv: r.inv()
@@ -67,6 +72,7 @@ package decorator
 //@ ensures ends_at_newline: len(decorations) > 0 && isBreak(decorations[len(decorations)-1]) && !isFileStart(node, name) ==> r.cursorAtNewLine == r.cursor
 //@ ensures lines_array_old_or_fresh: arr(r.lines) == old(arr(r.lines)) || !wasAllocated(arr(r.lines))
 //@ ensures block_comment_is_not_a_break: len(decorations) > 0 && hasPrefix(decorations[len(decorations)-1], "/*") ==> r.cursorAtNewLine < r.cursor
+//@ ensures every_break_has_its_line: len(r.lines) - old(len(r.lines)) >= breaksBefore(len(decorations))
 //@ ensures empty_is_noop: len(decorations) == 0 && !isFileStart(node, name) ==> r.cursor == old(r.cursor) && r.cursorAtNewLine == old(r.cursorAtNewLine) && len(r.lines) == old(len(r.lines)) && len(r.comments) == old(len(r.comments))
 //@ loop 1 invariant inv: r.inv()
 //@ loop 1 invariant cursor_monotone: r.cursor >= entry(r.cursor)
@@ -76,6 +82,7 @@ package decorator
 //@ loop 1 invariant after_block_comment: $i > 0 && hasPrefix(decorations[$i-1], "/*") ==> r.cursorAtNewLine < r.cursor
 //@ loop 1 invariant untouched: $i == 0 ==> r.cursor == entry(r.cursor) && r.cursorAtNewLine == entry(r.cursorAtNewLine) && len(r.lines) == entry(len(r.lines)) && len(r.comments) == entry(len(r.comments))
 //@ loop 1 invariant index: 0 <= $i && $i <= len(decorations)
+//@ loop 1 invariant every_break_has_its_line: len(r.lines) - entry(len(r.lines)) >= breaksBefore($i)
 //@ loop 1 invariant lines_array_old_or_fresh: arr(r.lines) == old(arr(r.lines)) || !wasAllocated(arr(r.lines))
 //@ loop 2 invariant lines_array_old_or_fresh: arr(r.lines) == old(arr(r.lines)) || !wasAllocated(arr(r.lines))
 //@ loop 2 invariant sorted: r.linesSorted()
